@@ -118,7 +118,11 @@ def model(draw, flavour=None, max_blocks=10):
     # rocks
     nr = draw(I(0, 4))
     rocks = []
-    rnames = draw(st.lists(st.text(alphabet='abcdRKX12', min_size=5, max_size=5), min_size=nr, max_size=nr, unique=True))
+    # five-character (A5) names; shorter names are held blank-padded ('SAND ', '  cap'), as the reader stores them
+    rnames = draw(st.lists(_memo('rockname', lambda: st.one_of(
+        st.text(alphabet='abcdRKX12', min_size=5, max_size=5), st.text(alphabet='abcdRKX12', min_size=5, max_size=5),
+        st.text(alphabet='abcdRKX12', min_size=2, max_size=4).map(lambda t: t.ljust(5)),
+        st.text(alphabet='abcdRKX12', min_size=3, max_size=4).map(lambda t: t.rjust(5)))), min_size=nr, max_size=nr, unique=True))
     for nm in rnames:
         nad = draw(SF([None, 0, 0, 1, 2, 2]))
         r = {'name': nm, 'nad': nad, 'density': draw(pos(1, 1e4)), 'porosity': draw(pos(1e-4, 1.0)),
@@ -571,6 +575,14 @@ def compare(R, tag, got, exp, name_map=None, skip=()):
                     if pk in y: y[pk] = list(y[pk]) + [None] * (7 - len(y[pk]))
                     if pk in x: x = dict(x); x[pk] = list(x[pk]) + [None] * (7 - len(x[pk]))
             cmp_record(R, '%s:%s' % (tag, key), x, y, '%s[%d]' % (key, i))
+    # an INDOM entry is addressed by rock type: its key must be, character for character, the name of a rock type of the same model
+    rn = [r['name'] for r in got.get('rocks') or []]
+    if rn and exp.get('rocks'):
+        for x in got.get('indom') or []:
+            if [y for y in exp.get('indom') or [] if _s(y['rock']) == _s(x['rock'])] and \
+                    any(_s(y['name']) == _s(x['rock']) for y in exp['rocks']):
+                R.check(x['rock'] in rn, tag + ':indom:rock-not-a-rock-type-name',
+                        'INDOM entry %r: the rock types of the model are %r' % (x['rock'], rn))
     for key in ('param', 'rpcap', 'lineq', 'solver', 'multi', 'times', 'selec'):
         a, b = got.get(key), exp.get(key)
         if a is None and b is None: continue
